@@ -14,6 +14,7 @@ import (
 	"os"
 	"strconv"
 	"strings"
+	"sync"
 	"time"
 
 	"Havoc/pkg/common"
@@ -60,6 +61,10 @@ func (a *Agent) UploadMemFileInChunks(FileData []byte) uint32 {
 
 	return ID
 }
+
+// pivotConnectMtx
+// serialises the handling of DEMON_PIVOT_SMB_CONNECT reports (exists? else register and link)
+var pivotConnectMtx sync.Mutex
 
 func (a *Agent) TeamserverTaskPrepare(Command string, Console func(AgentID string, Message map[string]string)) error {
 
@@ -5279,6 +5284,10 @@ func (a *Agent) TaskDispatch(RequestID uint32, CommandID uint32, Parser *parser.
 
 									var DemonInfo *Agent
 
+									// looking the agent up and registering it when it is new is one step:
+									// the same report may arrive twice at the same time (a retried request)
+									pivotConnectMtx.Lock()
+
 									// if agent exist then just retrieve the instance by agent id
 									if teamserver.AgentExist(AgentHdr.AgentID) {
 
@@ -5289,6 +5298,7 @@ func (a *Agent) TaskDispatch(RequestID uint32, CommandID uint32, Parser *parser.
 											if up == DemonInfo {
 												Message["Type"] = "Error"
 												Message["Message"] = fmt.Sprintf("[SMB] Failed to connect: %x is the agent itself or one of its ancestors", AgentHdr.AgentID)
+												pivotConnectMtx.Unlock()
 												teamserver.AgentConsole(a.NameID, HAVOC_CONSOLE_MESSAGE, Message)
 												return
 											}
@@ -5329,6 +5339,8 @@ func (a *Agent) TaskDispatch(RequestID uint32, CommandID uint32, Parser *parser.
 											teamserver.AgentSendNotify(DemonInfo)
 										}
 									}
+
+									pivotConnectMtx.Unlock()
 
 									if DemonInfo != nil {
 										Message["Type"] = "Good"
